@@ -39,6 +39,9 @@ SHAPES = {
     # a decomposed (NFD) name with a sibling that sorts between the
     # decomposed and the composed spelling: 65 CC 81 < 68 < C3 A9
     "D3d": [("e\u0301te\u0301.bin",), ("hiver.bin",), ("z", "e\u0301")],
+    # sibling names that are canonically equivalent (NFC / NFD spelling of one
+    # text): distinct files that collide under Unicode normalisation
+    "D3q": [("caf\u00e9.bin",), ("cafe\u0301.bin",), ("d", "x")],
     # payload files named like the output metafile ("o.torrent")
     "D3t": [("o.torrent",), ("d", "o.torrent"), ("e",)],
 }
